@@ -632,6 +632,9 @@ class ProgGen:
 
     # ------------------------------------------------------------------ functions
     def fn_body(self, params, ret, d):
+        # names restart in every function: a callee's parameters and locals are often called like the caller's
+        # variables (v1, m2, p1 …), which is where scoping mistakes in calls show
+        self.counter = len(params)
         self.scope = [{"name": n, "ty": t, "mut": m} for n, t, m in params]
         n = self.rng.choice([0, 1, 2, 3, 4])
         impure = "impure" in self.features
@@ -643,6 +646,7 @@ class ProgGen:
     def fn_body_observed(self, params, d):
         """statements only; the function returns the tuple of (up to 6 of) the variables visible at its end, so that
         every effect of the statements is part of the result"""
+        self.counter = len(params)
         self.scope = [{"name": n, "ty": t, "mut": m} for n, t, m in params]
         ss = [self.stmt(d, False) for _ in range(self.rng.choice([2, 3, 4, 5]))]
         visible = {}
@@ -714,13 +718,13 @@ class ProgGen:
         self.helpers = []
         if "helpers" in self.features:
             for i in range(self.rng.choice([0, 0, 1, 2])):
-                ps = [(self.fresh("p"), self.small_ty(1), self.rng.random() < 0.3) for _ in range(self.rng.choice([1, 2]))]
+                ps = [(f"p{j + 1}", self.small_ty(1), self.rng.random() < 0.3) for j in range(self.rng.choice([1, 2, 3]))]
                 ret = self.small_ty(1)
                 text, ast = self.fn_body(ps, ret, self.max_depth - 1)
                 self.helpers.append({"name": f"helper{i}", "params": [(n, t) for n, t, _ in ps], "muts": [m for _, _, m in ps],
                                      "ret": ret, "text": text, "ast": ast, "used": False})
         n_params = n_params or self.rng.choice([1, 1, 2, 3])
-        params = [(self.fresh("a"), self.small_ty(self.rng.choice([0, 1, 2])), self.rng.random() < 0.3) for _ in range(n_params)]
+        params = [(f"p{j + 1}", self.small_ty(self.rng.choice([0, 1, 2])), self.rng.random() < 0.3) for j in range(n_params)]
         ret = self.small_ty(self.rng.choice([0, 1, 2]))
         if observe_all:
             body_text, body_ast, ret = self.fn_body_observed(params, self.max_depth)
